@@ -13,9 +13,13 @@
       hmmer    hmmer.remove_overlapping
       filter   cluster_prediction.filter_results -> filter_result_multiple
       detect   hmm_detection.run_on_record (DynamicProfile-only Ruleset) -> annotate -> add protoclusters ->
-               create_candidate_clusters -> create_regions -> GenBank text, results JSON text
+               create_candidate_clusters -> create_regions -> GenBank text, per-region GenBank files, results JSON text
       areas    records with given protoclusters / subregions (equal coordinates, equal products) ->
-               create_candidate_clusters -> create_regions -> GenBank text, results JSON text
+               create_candidate_clusters -> create_regions -> GenBank text, per-region GenBank files, results JSON text
+
+    Stages of detect / areas, compared one by one: protoclusters, cds_annotations (detect only), areas_sets (which
+    areas exist, order-free), candidate_member_repeats, areas (numbering and every order), genbank, region_genbank,
+    results_json.
 """
 
 from __future__ import annotations
@@ -41,7 +45,9 @@ PROPERTY_ID = "C17"
 LEVEL = "exploration"
 RULE = ("Every case is executed by every child process of the pool (hash seeds 0-6 and 4294967295 plus seeds drawn "
         "from Random(VERIF_SEED); quick 10 children, thorough 16), twice per child with different amounts of "
-        "ballast allocated before the run; all runs must give identical canonical dumps for every stage. "
+        "ballast allocated before the run; all runs must give identical canonical dumps for every stage (hits kept; "
+        "protoclusters; which areas exist; numbering and every order of areas; GenBank text of the record and of every "
+        "region; results JSON text). "
         "refine: 2-7 hits on one or two proteins, 2-5 profiles (lengths 10/20/50/100), starts copied from earlier "
         "hits (equal starts), scores from a 3-value set, both modes; hmmer: HmmerHits around overlap_limit with "
         "equal normalised scores; filter: HSPs of equivalent profiles overlapping by 19-22 with equal scores; "
@@ -597,41 +603,6 @@ def _sig(func):
 
 
 @_sig
-def _refine_equal_start(sub, spec, clause, detail) -> bool:
-    """ refine_hmmscan_results sorts a set of hits by start only: the refined hits of a protein differ between
-        two runs AND that protein has two input hits starting at the same residue """
-    if sub != "refine" or clause not in ("refine_list_differs", "refine_neighbour_differs"):
-        return False
-    tied = set(detail.get("cds_with_equal_starts") or [])
-    where = detail.get("where", "")
-    if where == "":     # a protein present in one result only (all of its hits were removed in the other run)
-        one, two = detail.get("one"), detail.get("two")
-        if detail.get("kind") != "keys" or not isinstance(one, list) or not isinstance(two, list):
-            return False
-        changed = set(one) ^ set(two)
-        return bool(changed) and changed <= tied
-    return where.split("[")[0] in tied
-
-
-@_sig
-def _filter_equal_scores_in_group(sub, spec, clause, detail) -> bool:
-    """ filter_results elects the best hit of an overlap group from a set of identity-hashed HSPs with a strict
-        comparison: the survivors differ between two runs AND some overlap group holds two equal scores; the second
-        filter only when it was handed differing survivors; or the function's own assertion trips in some runs """
-    if sub != "filter" or not detail.get("equal_scores_in_overlap_group"):
-        return False
-    if clause == "filter_results_differs":
-        return True
-    if clause == "filter_multiple_differs":
-        return "filter_results" in (detail.get("upstream") or [])
-    if clause == "exception_differs":
-        errors = [err for err in (detail.get("one"), detail.get("two")) if err]
-        return bool(errors) and all(err["type"] == "AssertionError" and err["where"].endswith(":filter_results")
-                                    for err in errors)
-    return False
-
-
-@_sig
 def _enabled_types_order(sub, spec, clause, detail) -> bool:
     """ hmm_detection.run_on_record stores list(set of rule names): only the order of 'enabled_types' in the
         module's JSON differs, with at least two rules """
@@ -640,34 +611,9 @@ def _enabled_types_order(sub, spec, clause, detail) -> bool:
             and len(spec["rules"]) >= 2)
 
 
-_DEFINITION_DOMAINS = re.compile(r"^records\[\]\.modules\.antismash\.detection\.hmm_detection\.rule_results\."
-                                 r"cds_by_protocluster\[\]\[\]\[\]\.definition_domains\.[A-Za-z0-9_-]+$")
-
-
-@_sig
-def _definition_domains_order(sub, spec, clause, detail) -> bool:
-    """ CDSResults.to_json writes list(set of domain names): only the order inside one 'definition_domains' list
-        of the module's JSON differs """
-    return (sub == "detect" and clause == "results_json_differs" and detail.get("kind") == "list_order"
-            and bool(_DEFINITION_DOMAINS.match(detail.get("where", ""))))
-
-
-@_sig
-def _gene_functions_order(sub, spec, clause, detail) -> bool:
-    """ CDSResults.annotate adds the CORE gene functions while iterating a set of domain names: only the order of
-        a gene's gene_functions differs (annotation, GenBank qualifier lines, record JSON), for a gene with several
-        defining domains for one rule """
-    if sub != "detect" or "cds_with_several_definition_domains" not in (detail.get("result_classes") or []):
-        return False
-    if "protoclusters" in (detail.get("upstream") or []):
-        return False
-    where, kind = detail.get("where"), detail.get("kind")
-    return ((clause == "cds_annotations_differs" and where == "[].gene_functions" and kind == "list_order")
-            or (clause in ("genbank_differs", "region_genbank_differs") and where == "CDS./gene_functions"
-                and kind in ("lines_reordered", "lines_changed") and "cds_annotations" in (detail.get("upstream") or []))
-            or (clause == "results_json_differs" and where == "records[].features[].qualifiers.gene_functions"
-                and kind == "list_order"))
-
+# Findings that were fixed in /repo while this check was built (refine equal starts 1cba1c5d, filter equal scores
+# c99f1795, definition_domains / gene_functions order 6282df77) have no signature any more: their witnesses are
+# ordinary regressions in replays/C17/fixed-*.json and any recurrence is a plain violation.
 
 _CANDIDATE_ORDER = {
     "areas_differs": {
